@@ -27,7 +27,7 @@ var fileReaders = map[string]bool{"Name": true, "Stat": true, "Fd": true}
 
 // serverGuarded: Server fields guarded by Server.mu (DESIGN.md 3.2).
 var serverGuardedNames = []string{"cols", "hooks", "hooksOut", "hookTree", "hookCross", "hookExpires",
-	"groupHooks", "groupObjects", "aof", "aofbuf", "aofsz", "shrinking", "shrinklog", "qidx"}
+	"groupHooks", "groupObjects", "aof", "aofbuf", "aofsz", "shrinking", "shrinklog", "qidx", "aofconnM"}
 
 // persistLocs: subset of guarded locations whose mutation must be logged.
 var persistLocs = map[string]bool{"Server.cols": true, "Collection": true, "Server.hooks": true}
